@@ -5,6 +5,8 @@ import SciVerif.Tie.Pins
 /-! Tie A obligations for C13 on the current source: the exact shape of the small path functions
 the Lean model transcribes, and the order of the decoding steps in `FinalizePaths`. -/
 namespace SciVerif.Tie
+-- functions the model relies on without an obligation of its own naming them (pinned by bin/mkpins):
+-- PIN-ALSO: Scipipe.createDirs Scipipe.FileIP_createDirs Scipipe.FileIP_Path
 open SciVerif.Generated
 
 theorem generated_consts_c13 : constsMatch = true := by decide
@@ -46,19 +48,23 @@ theorem generated_createdirs_and_cwd :
 theorem generated_o_case_for_c13 : oPlace = .temp ∧ renameSrcTemp = true := by decide
 
 
+
 -- BEGIN PINS (written by bin/mkpins; do not edit by hand)
 /-- the Go functions this property's model and obligations were written against have exactly the
 pinned skeletons (SHA-256 prefix of the atom list) -/
 theorem pinned_skeletons_c13 :
     pinsOk
-    [("Scipipe.FileIP_TempDir", "36eed961c5125267"),
+    [("Scipipe.FileIP_Path", "c6a514b4100d9a7c"),
+     ("Scipipe.FileIP_TempDir", "36eed961c5125267"),
      ("Scipipe.FileIP_TempPath", "7eba22a35232a5cb"),
+     ("Scipipe.FileIP_createDirs", "04008d08d8a14234"),
      ("Scipipe.FinalizePaths", "291fc0cefa37cea9"),
      ("Scipipe.Task_createDirs", "bac0633be6d72f5b"),
      ("Scipipe.Task_executeCommand", "98e77d849c0638cb"),
      ("Scipipe.Task_finalizePaths", "9cd0530d4e86fa92"),
      ("Scipipe.Task_formatCommand", "ccbe98735ce5c7d6"),
      ("Scipipe.applyPathModifiers", "8f319e3baa487b4a"),
+     ("Scipipe.createDirs", "1c2f8f3ce1c57500"),
      ("Scipipe.getShellCommandPlaceHolderRegex", "2974b35d7f6e39cc"),
      ("Scipipe.pathIsValid", "769a2bbc57bb6972"),
      ("Scipipe.prependParentDirPath", "2df0014600c27296"),
